@@ -655,6 +655,21 @@ where
                 None => continue,
             };
             let mut sig = s0.bbsPlusSignature().clone();
+            // "any valid signature": the second chain starts from a signature with a chosen exponent (0 for even L,
+            // 7 for odd L) that verifies but that `sign` would never produce
+            if chain == 1 {
+                let e2 = if l % 2 == 0 { Scalar::ZERO } else { Scalar::from(7u64) };
+                if let Some(a2) = reference_A::<CS>(&sk.0, &pk, hdr.as_deref(), &cur, e2) {
+                    let mut s2 = sig.clone();
+                    s2.A = a2;
+                    s2.e = e2;
+                    let v = verify::<CS>(h, &pk, &s2, hdr.as_deref(), Some(&cur));
+                    if v.is_ok() {
+                        h.stat("C12.chosen_exponent_start");
+                        sig = s2;
+                    }
+                }
+            }
             let mut history: Vec<Vec<Vec<u8>>> = vec![cur.clone()];
             let k = if chain == 0 { l.max(2) } else { 1 + h.rng.below(maxk as u64) as usize };
             for step in 0..k {
